@@ -8,6 +8,7 @@ import (
 	"path/filepath"
 	"regexp"
 	"sort"
+	"strings"
 	"strconv"
 	"sync"
 
@@ -169,6 +170,9 @@ func (c13) Gen(rng *rand.Rand, tier string, k int) *Case {
 	c := &Case{Family: "backtest", Impl: []string{"recording", "data", "html", "html-reports"}[rng.Intn(4)]}
 	c.Entity = "backtest.Backtest>" + c.Impl
 	lastDays := 5 + rng.Intn(40)
+	if rng.Intn(40) == 0 {
+		lastDays = 260 + rng.Intn(160) // a look-back of more than a year of daily bars
+	}
 	c.Param = []int{lastDays}
 	na := 1 + rng.Intn(5)
 	for i := 0; i < na; i++ {
@@ -290,6 +294,19 @@ func (c13) Shrinks(c *Case) []*Case {
 	return out
 }
 
+// notOneDocument: a report file is exactly one HTML document - it ends with its closing tag and
+// has no second one (what is left of an older, longer file after an overwrite without truncation).
+func notOneDocument(b []byte) string {
+	t := strings.TrimSpace(string(b))
+	if n := strings.Count(t, "</html>"); n != 1 {
+		return fmt.Sprintf("%d closing html tags in %d bytes", n, len(b))
+	}
+	if !strings.HasSuffix(t, "</html>") {
+		return fmt.Sprintf("%d bytes follow the closing html tag", len(t)-strings.Index(t, "</html>")-len("</html>"))
+	}
+	return ""
+}
+
 func makeBtStrategy(s SubSpec) strategy.Strategy {
 	if s.Entity == "scripted" {
 		return &scriptedStrategy{K: s.Cfg[0]}
@@ -335,7 +352,7 @@ func (c13) Run(c *Case, st *Stats) []Violation {
 	if c.Workers > 1 {
 		regime = "workers>1"
 	}
-	dir := ""
+	dir, repoDir := "", ""
 	blocked := false
 	clientDone := false
 	var runErr error
@@ -351,7 +368,13 @@ func (c13) Run(c *Case, st *Stats) []Violation {
 			now := simrt.Now()
 			since := now.AddDate(0, 0, -lastDays)
 			today := now.Truncate(24 * 3600 * 1e9)
-			repo := asset.NewInMemoryRepository()
+			var repo asset.Repository = asset.NewInMemoryRepository()
+			if c.Seed%4 == 1 {
+				// the assets are CSV files (what cmd/indicator-backtest reads)
+				repoDir = runDir()
+				repo = asset.NewFileSystemRepository(repoDir)
+				st.Faults["file-system-repository"]++
+			}
 			allByName := map[string][]*asset.Snapshot{}
 			for _, a := range c.Assets {
 				if a.SrcAbsent {
@@ -402,6 +425,15 @@ func (c13) Run(c *Case, st *Stats) []Violation {
 				report = data
 			default:
 				dir = runDir()
+				if c.Seed%3 == 0 {
+					// the output directory was used by an earlier, larger run: its files are still there
+					stale := []byte("<html>\n" + strings.Repeat("<tr>\n<td><a href=\"old.html\">stale result of an earlier run</a></td>\n<td>99.99%</td>\n</tr>\n", 700) + "</html>\n")
+					os.WriteFile(filepath.Join(dir, "index.html"), stale, 0o644)
+					for _, a := range c.Assets {
+						os.WriteFile(filepath.Join(dir, a.Name+".html"), stale, 0o644)
+					}
+					st.Faults["output-directory-holds-reports-of-an-earlier-run"]++
+				}
 				h := backtest.NewHTMLReport(dir)
 				h.WriteStrategyReports = c.Impl == "html-reports"
 				report = h
@@ -472,6 +504,9 @@ func (c13) Run(c *Case, st *Stats) []Violation {
 	defer func() {
 		if dir != "" {
 			os.RemoveAll(dir)
+		}
+		if repoDir != "" {
+			os.RemoveAll(repoDir)
 		}
 	}()
 	st.noteSim(out)
@@ -686,6 +721,10 @@ func (c13) Run(c *Case, st *Stats) []Violation {
 				add("report-file-missing", regime, err.Error())
 				return vs
 			}
+			if why := notOneDocument(b); why != "" {
+				add("report-file-not-one-document", regime, n+".html: "+why)
+				return vs
+			}
 			rows := parseHTMLRows(string(b))
 			if len(rows) != len(c.Subs) {
 				add("pair-count", regime, fmt.Sprintf("%s.html lists %d strategies, the run has %d", n, len(rows), len(c.Subs)))
@@ -757,6 +796,10 @@ func (c13) Run(c *Case, st *Stats) []Violation {
 		b, err := os.ReadFile(filepath.Join(dir, "index.html"))
 		if err != nil {
 			add("report-file-missing", regime, err.Error())
+			return vs
+		}
+		if why := notOneDocument(b); why != "" {
+			add("report-file-not-one-document", regime, "index.html: "+why)
 			return vs
 		}
 		rows := parseHTMLRows(string(b))
